@@ -353,6 +353,32 @@ CLAIMED["C19"] = dict(
         technique="Coq proof on a file-system/state-machine model (refusal, replacement, purity of reads by induction over call sequences); runtime part by differential correspondence with statement tracing and file hashing",
         design="4 (C19)")
 
+CLAIMED["C20"] = dict(
+        text="PARTIAL (runtime-backed). Coq theorems (Properties/C20.v, 7 statements, closed under the global context) about the "
+             "interleaving model of Model/Conc.v (any number of processes, each a straight-line program over one shared "
+             "directory: create a temp file under a name not in use at that moment, write, read back, unlink; stacks of live "
+             "files per process; a schedule is any interleaving), for ALL process counts, programs and schedules, by induction "
+             "over the schedule with the invariant 'live names are pairwise distinct, owned, and hold exactly their owner's "
+             "writes': every finished process has read back exactly what it reads alone (C20_independent); when all are done "
+             "and every program removes what it creates the directory is empty (C20_tempdir_clean); live names are never "
+             "shared (C20_names_exclusive); the importers' programs - path input and, since the repair of F15, from_string "
+             "input - are balanced, and alone an import reads back what it wrote; the pre-fix from_string program provably "
+             "leaves one file (refutation). Real overlap (processes, kernel, sqlite) is outside the model and decided by "
+             "the correspondence on the running code: every interleaving of the temp-file sync points of 2 forked "
+             "create_db processes and sampled ones of 3 (file barriers patched into tempfile.NamedTemporaryFile/os.unlink "
+             "of the children), free-running groups of 4-24 processes with and without start offsets, GFF3/GTF, path and "
+             "from_string inputs, one shared temp dir; each output is compared with the solitary run inside Coq, the merged "
+             "temp-file trace is replayed against the model's directory discipline (a name is created only while not in "
+             "use, removed only by its creator) and against the create/remove skeleton of the model's programs, and the "
+             "directory listing must be empty; 2-12 concurrent readers must all see the full content.",
+        note="Trusted: Coq kernel + vm_compute; Model/Conc.v hand-written; oracle hypothesis of the theorems: the chosen temp "
+             "name is not in use (O_EXCL of NamedTemporaryFile; satisfiable: Examples/C20_inhabited.v). The theorems say "
+             "nothing about sqlite or the OS; races inside them can only be sampled by the free-running groups. Children are "
+             "forked from the harness (no exec). Finding F15 (from_string left its temp copy behind) was reported by this "
+             "check and fixed in /repo.",
+        technique="Coq proof on an interleaving model (invariant by induction over schedules); runtime part by driven-schedule and free-running differential correspondence with temp-file trace replay",
+        design="4 (C20)")
+
 PENDING_REASON = "machinery for this property is not built yet in this revision (planned, see DESIGN.md section 4/9); not claimed until its check exists"
 
 
